@@ -32,6 +32,7 @@ def main():
     wt = "/tmp/seed/sv-%s" % pid
     suite = True
     tier = "quick"
+    dstname = None
     i = 1
     while i < len(args):
         if args[i] == "--src":
@@ -42,6 +43,8 @@ def main():
             suite = False; i += 1
         elif args[i] == "--tier":
             tier = args[i + 1]; i += 2
+        elif args[i] == "--dst":
+            dstname = args[i + 1]; i += 2
         else:
             i += 1
     patch = os.path.join(src, "patch.diff")
@@ -122,7 +125,7 @@ def main():
     ok = result.get("demo_clean_rc") == 0 and result.get("patch_applies") and result.get("demo_patched_rc", 0) != 0 and \
         (result.get("suite_ok", True))
     result["confirmed"] = bool(ok)
-    dst = os.path.join(V, "seeded", pid)
+    dst = os.path.join(V, "seeded", dstname or pid)
     if ok:
         os.makedirs(dst, exist_ok=True)
         shutil.copy(patch, os.path.join(dst, "patch.diff"))
